@@ -201,6 +201,11 @@ def examples_strategy(draw, tier='quick', allow=lambda c: True,
                                         ['a$', 'b$', 'a$$'],
                                         ['x^', 'y^', '^x', 'x^2']])))
     if draw(st.integers(0, 11)) == 0:
+        # letters followed by combining marks (decomposed form)
+        xs.extend(draw(st.lists(st.sampled_from(
+            ['cafe\u0301 12', 'nai\u0308ve 7', 'A\u030a 3', 'e\u0301',
+             'o\u0302te\u0301 41']), min_size=1, max_size=3, unique=True)))
+    if draw(st.integers(0, 11)) == 0:
         # genuine values that look like the text form of a null
         xs.extend(draw(st.lists(st.sampled_from(['nan', 'None', 'NaT',
                                                  '<NA>', 'null', 'NULL']),
